@@ -183,6 +183,12 @@ func init() {
 				w.Fail("C16", "Params queries failed: %v", err)
 				return
 			}
+			// "every fee check uses the new values and only the new values" includes the mempool's re-check of what
+			// it already holds: registrations admitted at the fee then in force stay pending (never delivered) and are
+			// re-checked after every commit; one that is kept must pay the registration fee now in force
+			if !c16Mempool(w, wk, b) {
+				return
+			}
 			if msg := validEnt(e); msg != "" {
 				w.Fail("C16", "stored enterprise parameters are invalid (%s): %+v", msg, e)
 				return
@@ -224,6 +230,56 @@ func init() {
 			}
 		},
 	})
+}
+
+type c16Pending struct {
+	bytes  []byte
+	beacon bool
+	fee    uint64
+}
+
+func c16Mempool(w *World, wk wrkchaintypes.Params, b beacontypes.Params) bool {
+	if wk.Denom != "nund" || b.Denom != "nund" || wk.FeeRegister >= 1<<62 || b.FeeRegister >= 1<<62 {
+		return true
+	}
+	mp, _ := w.Notes["c16.mempool"].([]c16Pending)
+	var keep []c16Pending
+	for _, p := range mp {
+		r, pan := w.C.ReCheckTx(p.bytes)
+		now := wk.FeeRegister
+		mod := "WRKChain"
+		if p.beacon {
+			now, mod = b.FeeRegister, "BEACON"
+		}
+		if pan != nil || r.Code != 0 {
+			if p.fee != now {
+				w.Class("c16.recheck-evicted-after-fee-change")
+			}
+			continue
+		}
+		if p.fee != now {
+			w.Fail("C16", "a pending %s registration offering %dnund is kept by the mempool re-check (CheckTx type Recheck, code 0) although the registration fee in force is now %dnund", mod, p.fee, now)
+			return false
+		}
+		w.Class("c16.recheck-kept")
+		keep = append(keep, p)
+	}
+	if len(keep) < 4 && w.Notes["c16.mempool.busy"] != true {
+		w.Notes["c16.mempool.busy"] = true
+		beacon := w.C.Height%2 == 0
+		kind, fee := WrkReg, wk.FeeRegister
+		if beacon {
+			kind, fee = BcnReg, b.FeeRegister
+		}
+		payer := w.NAcc - 1
+		t := &Tx{Ops: []Op{{Kind: kind, Actor: payer, Named: -1, Peer: payer}}, Check: true, Fee: FeeSpec{Mode: FeeLiteral, Amt: new(big.Int).SetUint64(fee).String()}}
+		if bt := w.RunTx(t); bt != nil && bt.CheckRes != nil && bt.CheckRes.Code == 0 {
+			keep = append(keep, c16Pending{bytes: bt.Bytes, beacon: beacon, fee: fee})
+		}
+		delete(w.Notes, "c16.mempool.busy")
+	}
+	w.Notes["c16.mempool"] = keep
+	return !w.stop()
 }
 
 // c16FeeProbe submits a registration to CheckTx with the old and with the new registration fee.
